@@ -9,7 +9,7 @@
    Part 2: soundness of the certificate checker that is evaluated on every observed
    Network.from_units result. *)
 From Coq Require Import Permutation Relations.
-From V Require Import C19.Model C19.Proofs C19.ProofsSurgery C19.ProofsPaths.
+From V Require Import C19.Model C19.Proofs C19.ProofsSurgery C19.ProofsPaths C19.ProofsDeep.
 Local Open Scope nat_scope.
 
 (* the sorted path is a permutation of the input path (no hypothesis on reach: also on cyclic paths) *)
@@ -318,3 +318,219 @@ Example C19_find_paths_nonvacuous :
               (9, 6, nounit); (10, 7, 0); (11, nounit, 0)] in
   find_paths all (11, nounit, 0) [9] = ([[0; 3; 4; 5; 7]; [1; 2]; [6]], [([0; 3; 5; 7], 10)], [9; 10]).
 Proof. vm_compute. reflexivity. Qed.
+
+
+(* ---- part 7 (deepening): "each unit once" is preserved by the path surgery under explicit path facts.
+   good x: `units` = units of the path at every level; flatpath n: the joined network is a list of units
+   (what fill_path produces); confinedb n s: at every level of s at most one sub-network shares units with
+   n; no_child_overlap n s: no sub-network of s shares units with n.  All facts are decidable, and hold on
+   every recorded join of the quick tier. *)
+Theorem C19_add_linear_once : forall s n, good s -> good n -> NoDup (flatn s) -> NoDup (flatn n) ->
+  confinedb n s = true -> NoDup (flatn (add_linear s n)).
+Proof. exact add_linear_nodup. Qed.
+Print Assumptions C19_add_linear_once.
+
+Theorem C19_join_linear_once : forall f s n, good s -> good n -> NoDup (flatn s) -> NoDup (flatn n) ->
+  no_child_overlap n s = true -> NoDup (flatn (join_linear (S f) s n)).
+Proof. exact join_linear_nodup. Qed.
+Print Assumptions C19_join_linear_once.
+
+Theorem C19_insert_recycle_once : forall es all tbl f s index n r,
+  good s -> good n -> NoDup (flatn s) -> NoDup (flatn n) -> flatpath n = true ->
+  no_child_overlap n s = true ->
+  insert_recycle es all tbl f s index n (n_path s) = Some r -> NoDup (flatn r).
+Proof. exact insert_recycle_nodup. Qed.
+Print Assumptions C19_insert_recycle_once.
+
+Theorem C19_join_recycle_once : forall es all tbl f s n r,
+  good s -> good n -> NoDup (flatn s) -> NoDup (flatn n) -> flatpath n = true -> confinedb n s = true ->
+  join_recycle es all tbl f s n = Some r -> NoDup (flatn r).
+Proof. exact join_recycle_nodup. Qed.
+Print Assumptions C19_join_recycle_once.
+
+(* every history of loop joins: if the path fact holds along the run, the network holds exactly the units of
+   the start network and of the loops, each once, with `units` = units of the path *)
+Theorem C19_joins_once : forall es all tbl f ns s r,
+  good s -> NoDup (flatn s) -> Forall loop_ok ns -> confined_run es all tbl f s ns = true ->
+  joins es all tbl f s ns = Some r ->
+  good r /\ NoDup (flatn r) /\
+  (forall u, In u (flatn r) <-> In u (flatn s) \/ In u (flat_map flatn ns)).
+Proof. exact joins_once. Qed.
+Print Assumptions C19_joins_once.
+
+(* the linear phase of from_feedstock, for every stream graph, feedstock and `ends`: the network built from
+   the fragments of find_paths holds every walked unit exactly once *)
+Theorem C19_linear_phase_once : forall f all feed ends lin cyc ends',
+  find_paths all feed ends = (lin, cyc, ends') ->
+  good (linear_phase f lin) /\ NoDup (flatn (linear_phase f lin)) /\
+  (forall u, In u (flatn (linear_phase f lin)) <-> In u (concat lin)).
+Proof. exact linear_phase_once. Qed.
+Print Assumptions C19_linear_phase_once.
+
+(* and every loop of find_paths satisfies the hypotheses the join theorems put on the joined network *)
+Theorem C19_loops_ready : forall all feed ends lin cyc ends',
+  find_paths all feed ends = (lin, cyc, ends') ->
+  Forall (fun pr => good (unet (fst pr) [snd pr]) /\ NoDup (flatn (unet (fst pr) [snd pr])) /\
+                    flatpath (unet (fst pr) [snd pr]) = true) cyc.
+Proof. exact loops_ready. Qed.
+Print Assumptions C19_loops_ready.
+
+(* the evaluated invariants are the propositional ones *)
+Theorem C19_evaluated_invariants : forall x, is_net x = true -> units_okb x = true -> nodup_pathb x = true ->
+  good x /\ NoDup (flatn x).
+Proof. intros x N U D. split; [apply okb_good; assumption|apply nodup_pathb_NoDup; exact D]. Qed.
+Print Assumptions C19_evaluated_invariants.
+
+(* topological order under splicing (join_network_at_unit / _append_network on acyclic networks):
+   _insert_linear_network(index, n) keeps every stream forward if no stream goes from the receiver's units at
+   or after `index` into n, nor from n to the units before `index`; _append_linear_network if none goes back *)
+Theorem C19_insert_linear_forward : forall es p r U index n, is_net n = true ->
+  fwd es (flatn (NN p r U)) -> fwd es (flatn n) ->
+  (forall s u v, In (s, u, v) es -> In u (flat_map flatn (skipn index p)) -> In v (flatn n) -> False) ->
+  (forall s u v, In (s, u, v) es -> In u (flatn n) -> In v (flat_map flatn (firstn index p)) -> False) ->
+  fwd es (flatn (insert_linear (NN p r U) index n)).
+Proof. exact insert_linear_forward. Qed.
+Print Assumptions C19_insert_linear_forward.
+
+Theorem C19_append_linear_forward : forall es p r U n, is_net n = true ->
+  fwd es (flatn (NN p r U)) -> fwd es (flatn n) ->
+  (forall s u v, In (s, u, v) es -> In u (flatn n) -> In v (flat_map flatn p) -> False) ->
+  fwd es (flatn (append_linear (NN p r U) n)).
+Proof. exact append_linear_forward. Qed.
+Print Assumptions C19_append_linear_forward.
+
+(* ---- non-vacuity of part 7 *)
+(* the first minimised defect again (a unit fed by two loops): all hypotheses of the join theorem hold *)
+Example C19_join_recycle_once_nonvacuous :
+  let es := [(0, 0, 1); (1, 0, 2); (3, 1, 0); (4, 2, 0)] in
+  let all := es ++ [(2, 0, nounit); (5, nounit, 1)] in
+  let s := NN [NU 1; NN [NU 0; NU 2] [4] [0; 2]] [] [0; 1; 2] in
+  let n := NN [NU 1; NU 0] [0] [0; 1] in
+  good s /\ good n /\ NoDup (flatn s) /\ NoDup (flatn n) /\ flatpath n = true /\ confinedb n s = true /\
+  exists r, join_recycle es all [] 20 s n = Some r /\ NoDup (flatn r).
+Proof.
+  cbv zeta.
+  split; [apply okb_good; vm_compute; reflexivity|]. split; [apply okb_good; vm_compute; reflexivity|].
+  split; [apply nodup_pathb_NoDup; vm_compute; reflexivity|]. split; [apply nodup_pathb_NoDup; vm_compute; reflexivity|].
+  split; [vm_compute; reflexivity|]. split; [vm_compute; reflexivity|].
+  eexists. split; [vm_compute; reflexivity|]. apply nodup_pathb_NoDup. vm_compute. reflexivity.
+Qed.
+
+(* a sub-network [0; 2] shares unit 2 with the joined fragment: confined, so add_linear keeps each unit once *)
+Example C19_add_linear_once_nonvacuous :
+  let s := NN [NU 1; NN [NU 0; NU 2] [4] [0; 2]; NU 3] [] [0; 1; 2; 3] in
+  let n := NN [NU 2; NU 3; NU 5] [] [2; 3; 5] in
+  good s /\ good n /\ NoDup (flatn s) /\ NoDup (flatn n) /\ confinedb n s = true /\
+  flatn (add_linear s n) = [1; 0; 2; 3; 5].
+Proof.
+  cbv zeta.
+  split; [apply okb_good; vm_compute; reflexivity|]. split; [apply okb_good; vm_compute; reflexivity|].
+  split; [apply nodup_pathb_NoDup; vm_compute; reflexivity|]. split; [apply nodup_pathb_NoDup; vm_compute; reflexivity|].
+  split; vm_compute; reflexivity.
+Qed.
+
+(* a flat receiver and a loop inserted at the position of its first common unit *)
+Example C19_insert_recycle_once_nonvacuous :
+  let es := [(0, 0, 1); (1, 1, 2); (2, 2, 3); (4, 2, 1)] in
+  let all := es ++ [(5, nounit, 0); (6, 3, nounit)] in
+  let s := unet [0; 1; 2; 3] [] in
+  let n := unet [1; 2] [4] in
+  good s /\ good n /\ NoDup (flatn s) /\ NoDup (flatn n) /\ flatpath n = true /\ no_child_overlap n s = true /\
+  insert_recycle es all [] 20 s 1 n (n_path s) = Some (NN [NU 0; NN [NU 1; NU 2] [4] [1; 2]; NU 3] [] [0; 1; 2; 3]) /\
+  join_linear 1 s (unet [3; 7] []) = NN [NU 0; NU 1; NU 2; NU 3; NU 7] [] [0; 1; 2; 3; 7] /\
+  no_child_overlap (unet [3; 7] []) s = true.
+Proof.
+  cbv zeta.
+  split; [apply unet_good|]. split; [apply unet_good|].
+  split; [rewrite unet_flat; apply nodupb_NoDup; reflexivity|]. split; [rewrite unet_flat; apply nodupb_NoDup; reflexivity|].
+  repeat split; vm_compute; reflexivity.
+Qed.
+
+(* the flowsheet of C19_find_paths_nonvacuous: three fragments, one loop; two loop joins in a row *)
+Example C19_phases_nonvacuous :
+  let all := [(0, 0, 1); (1, 0, 3); (2, 1, 2); (3, 2, 7); (4, 3, 4); (5, 3, 5); (6, 4, 6); (7, 4, 5); (8, 5, 7);
+              (9, 6, nounit); (10, 7, 0); (11, nounit, 0)] in
+  let es := filter (fun e => negb (src e =? nounit) && negb (dst e =? nounit)) all in
+  flatn (linear_phase 0 [[0; 3; 4; 5; 7]; [1; 2]; [6]]) = [0; 3; 4; 5; 7; 1; 2; 6] /\
+  Forall loop_ok [unet [0; 3; 5; 7] [10]; unet [4; 5] [7]] /\
+  confined_run es all [] 20 (linear_phase 0 [[0; 3; 4; 5; 7]; [1; 2]; [6]]) [unet [0; 3; 5; 7] [10]; unet [4; 5] [7]] = true /\
+  exists r, joins es all [] 20 (linear_phase 0 [[0; 3; 4; 5; 7]; [1; 2]; [6]]) [unet [0; 3; 5; 7] [10]; unet [4; 5] [7]] = Some r.
+Proof.
+  cbv zeta. split; [vm_compute; reflexivity|]. split.
+  - assert (L : forall p rc, nodupb p = true -> loop_ok (unet p rc)).
+    { intros p rc N. split; [apply unet_good|]. split; [rewrite unet_flat; apply nodupb_NoDup; exact N|apply unet_flatpath]. }
+    constructor; [apply L; reflexivity|]. constructor; [apply L; reflexivity|constructor].
+  - split; [vm_compute; reflexivity|]. eexists. vm_compute. reflexivity.
+Qed.
+
+(* splicing the network of a second feed (unit 2, feeding unit 1) before the connecting unit *)
+Example C19_insert_linear_forward_nonvacuous :
+  let es := [(0, 0, 1); (1, 2, 1)] in
+  fwd es (flatn (unet [0; 1] [])) /\ fwd es (flatn (unet [2] [])) /\
+  flatn (insert_linear (unet [0; 1] []) 1 (unet [2] [])) = [0; 2; 1] /\
+  fwd es [0; 2; 1].
+Proof.
+  cbv zeta.
+  assert (F1 : fwd [(0, 0, 1); (1, 2, 1)] (flatn (unet [0; 1] []))).
+  { intros s u v [E|[E|[]]] Hu Hv; inversion E; subst.
+    - exists 0, 1. repeat split; lia.
+    - cbn in Hu. destruct Hu as [Hu|[Hu|[]]]; discriminate. }
+  assert (F2 : fwd [(0, 0, 1); (1, 2, 1)] (flatn (unet [2] []))).
+  { intros s u v [E|[E|[]]] Hu Hv; inversion E; subst; cbn in Hu, Hv;
+      [destruct Hu as [Hu|[]]; discriminate|destruct Hv as [Hv|[]]; discriminate]. }
+  split; [exact F1|]. split; [exact F2|]. split; [reflexivity|].
+  change [0; 2; 1] with (flatn (insert_linear (NN (map NU [0; 1]) [] [0; 1]) 1 (unet [2] []))).
+  apply insert_linear_forward; auto.
+  - intros s u v [E|[E|[]]] Hu Hv; inversion E; subst; cbn in Hu, Hv; [destruct Hv as [Hv|[]]; discriminate|].
+    destruct Hu as [Hu|[]]; discriminate.
+  - intros s u v [E|[E|[]]] Hu Hv; inversion E; subst; cbn in Hu, Hv; [destruct Hu as [Hu|[]]; discriminate|].
+    destruct Hv as [Hv|[]]; discriminate.
+Qed.
+
+(* ---- get_downstream_units computes the transitive closure (for every stream graph and cut set), so
+   PathSource reachability is transitive and the sort theorems hold for EVERY flowsheet whose uncut streams
+   form no cycle, without a hypothesis on `reach` *)
+Theorem C19_downstream_is_closure : forall es ends u v,
+  In v (downstream es ends u) <-> clos_trans nat (fun a b => In b (nbrs es ends a)) u v.
+Proof. exact downstream_spec. Qed.
+Print Assumptions C19_downstream_is_closure.
+
+Theorem C19_reach_transitive : forall es ends a b c,
+  reach_of es ends a b = true -> reach_of es ends b c = true -> reach_of es ends a c = true.
+Proof. exact reach_of_trans. Qed.
+Print Assumptions C19_reach_transitive.
+
+Theorem C19_sort_graph_acyclic : forall es ends path, cut_acyclic es ends ->
+  Permutation (sorted_path (reach_of es ends) (direct_of es ends) path) path /\
+  sort_stop (reach_of es ends) (direct_of es ends) path = true /\
+  sort_recycles (reach_of es ends) (direct_of es ends) path = [] /\
+  (forall e i j, In e es -> memb (sid e) ends = false ->
+     nth_error (sorted_path (reach_of es ends) (direct_of es ends) path) i = Some (src e) ->
+     nth_error (sorted_path (reach_of es ends) (direct_of es ends) path) j = Some (dst e) -> i < j).
+Proof. exact sort_graph_acyclic. Qed.
+Print Assumptions C19_sort_graph_acyclic.
+
+Example C19_sort_graph_acyclic_nonvacuous : cut_acyclic ex_es [] /\ reach_of ex_es [] 0 3 = true.
+Proof.
+  split; [|vm_compute; reflexivity]. intros a R. apply reach_of_spec in R.
+  rewrite (proj1 (proj2 C19_sort_nonvacuous) a) in R. discriminate.
+Qed.
+
+(* for every stream graph, feedstock and `ends`: after the linear phase and the first loop join every walked
+   unit is in the network exactly once (a flat receiver meets the path fact trivially) *)
+Theorem C19_first_loop_once : forall es all' tbl f f0 all feed ends lin cyc ends' pr r,
+  find_paths all feed ends = (lin, cyc, ends') -> In pr cyc ->
+  join_recycle es all' tbl f (linear_phase f0 lin) (unet (fst pr) [snd pr]) = Some r ->
+  good r /\ NoDup (flatn r) /\
+  (forall u, In u (flatn r) <-> In u (concat lin) \/ In u (fst pr)).
+Proof. exact first_loop_once. Qed.
+Print Assumptions C19_first_loop_once.
+
+Example C19_first_loop_once_nonvacuous :
+  let all := [(0, 0, 1); (1, 0, 3); (2, 1, 2); (3, 2, 7); (4, 3, 4); (5, 3, 5); (6, 4, 6); (7, 4, 5); (8, 5, 7);
+              (9, 6, nounit); (10, 7, 0); (11, nounit, 0)] in
+  let es := filter (fun e => negb (src e =? nounit) && negb (dst e =? nounit)) all in
+  find_paths all (11, nounit, 0) [9] = ([[0; 3; 4; 5; 7]; [1; 2]; [6]], [([0; 3; 5; 7], 10)], [9; 10]) /\
+  exists r, join_recycle es all [] 20 (linear_phase 0 [[0; 3; 4; 5; 7]; [1; 2]; [6]]) (unet [0; 3; 5; 7] [10]) = Some r
+            /\ flatn r = [0; 3; 4; 5; 7; 1; 2; 6].
+Proof. cbv zeta. split; [vm_compute; reflexivity|]. eexists. split; vm_compute; reflexivity. Qed.
